@@ -810,6 +810,15 @@ class AxisInterp:
             return self.subscript(e, env)
         if isinstance(e, ast.Call):
             return self.call(e, env)
+        if isinstance(e, (ast.Yield, ast.YieldFrom)):
+            v = self.ev(e.value, env) if e.value is not None else NONE
+            # the caller runs between two steps of a generator: any accessor
+            # it calls may convert the table's matrix to the other layout
+            for k in list(env):
+                if k.endswith('._data') and env[k].k == 'matrix' and \
+                        env[k].maj is not None:
+                    env[k] = env[k].with_(maj=None, c='after-yield')
+            return TOP
         if isinstance(e, ast.IfExp):
             t = self.truth(e.test, env)
             if t is True:
@@ -924,6 +933,24 @@ class AxisInterp:
         if isinstance(e, ast.BinOp):
             a = self.ev(e.left, env)
             b = self.ev(e.right, env)
+            if a.k == 'per' and b.k == 'per' and isinstance(
+                    e.op, (ast.Add, ast.Sub, ast.Mult, ast.Div)) and \
+                    a.own and b.own and a.c != 'alloc' and b.c != 'alloc':
+                same = a.own.rstrip("'") == b.own.rstrip("'")
+                if a.ax and b.ax and a.ax != b.ax:
+                    self.sink('OWNER', e, 'combine:per', 'bad',
+                              'a vector over the %s axis is combined '
+                              'element-wise with a vector over the %s axis'
+                              % (NAMEAX[a.ax], NAMEAX[b.ax]))
+                elif not same and not (a.lay and a.lay == b.lay):
+                    self.sink('OWNER', e, 'combine:per', 'bad',
+                              "vectors of table '%s' and table '%s' are "
+                              "combined position by position although "
+                              "nothing establishes that the two tables list "
+                              "their ids in the same order" % (a.own, b.own))
+                else:
+                    self.sink('OWNER', e, 'combine:per', 'ok',
+                              'vectors of one table / one established order')
             if isinstance(e.op, ast.Mult) and a.k == 'list' and \
                     b.k == 'len' and b.ax:
                 return V('md' if a.el is not None and a.el.k == 'none'
@@ -1088,6 +1115,14 @@ class AxisInterp:
                 if base.maj == '?':
                     self.sink('MAJOR', e, 'raw-%s' % attr, 'unknown',
                               'layout fixed by asformat(<unresolved>)')
+                elif base.maj is None and base.c == 'after-yield':
+                    self.sink('MAJOR', e, 'raw-%s' % attr, 'bad',
+                              'the compressed-storage array %s is read after '
+                              'the generator has yielded: the layout fixed '
+                              'before the loop may have been changed by '
+                              'whatever the consumer called in between '
+                              '(data(id, other axis), iteration over the '
+                              'other axis)' % attr)
                 elif base.maj is None:
                     self.sink('MAJOR', e, 'raw-%s' % attr, 'bad',
                               'the compressed-storage array %s of a table\'s '
@@ -1496,7 +1531,39 @@ class AxisInterp:
         if name == 'errcheck':
             for a in e.args:
                 self.ev(a, env)
+            # errcheck raises under the configured profile: it is an exit,
+            # and a table whose ids were replaced must not reach it with the
+            # old lookup still installed
+            if not self.depth:
+                for k, v in env.items():
+                    if k.startswith('$stale:') and v.c:
+                        _, owner, ax = k.split(':')
+                        self.sink('REINDEX', e, 'reindex-before-errcheck:%s'
+                                  % ('_sample_ids' if ax == S
+                                     else '_observation_ids'), 'bad',
+                                  'errcheck (which raises under the '
+                                  'configured error profile) is reached '
+                                  'while the %s ids of %s are replaced and '
+                                  'the lookup is not rebuilt yet: an '
+                                  'in-place operation that is refused '
+                                  'leaves index()/exists() answering for '
+                                  'the old ids' % (NAMEAX[ax], owner))
             return TOP
+        if (isinstance(f, ast.Attribute) and f.attr == 'reduce' or name in (
+                'np.sum', 'np.max', 'np.min', 'np.mean', 'np.amax',
+                'np.amin', 'np.prod', 'np.any', 'np.all', 'np.median',
+                'np.count_nonzero')) and e.args and \
+                kwarg(e, 'axis') is not None:
+            m0 = self.ev(e.args[0], env)
+            if m0.k == 'matrix':
+                # a fold of the matrix along dimension n, like M.sum(axis=n)
+                v = self.ev(kwarg(e, 'axis'), env)
+                n = v.c if v.k in ('const', 'axisnum') else None
+                if n in (0, 1):
+                    rows_ax, cols_ax = (S, O) if m0.flip else (O, S)
+                    return V('per', ax=cols_ax if n == 0 else rows_ax,
+                             own=m0.own)
+                return TOP
         if isinstance(f, ast.Attribute):
             recv = self.ev(f.value, env)
             if recv.k == 'table':
